@@ -47,9 +47,16 @@ const (
 	OpAtomic
 	OpYield
 	OpSleep
+	OpPoll // a loop that has run PollEvery iterations without a scheduling point gives way (see Loop)
 )
 
-var opNames = [...]string{"start", "chan", "select", "resume", "lock", "rlock", "once", "wgwait", "atomic", "yield", "sleep"}
+var opNames = [...]string{"start", "chan", "select", "resume", "lock", "rlock", "once", "wgwait", "atomic", "yield", "sleep", "poll"}
+
+// PollEvery: a thread that executes this many loop back-edges / function entries without reaching a
+// scheduling point is polling (or computing for long): it gives way to the other runnable threads -
+// which costs no preemption - and, when only such threads are runnable, to the clock. Its iteration
+// count keeps growing across these yields, so a loop that nothing ever ends still ends as SPIN.
+var PollEvery int64 = 20000
 
 const MaxThreads = 64
 
@@ -113,9 +120,10 @@ type X struct {
 	T0       time.Time
 	onAbort  func()
 
-	preempts int
-	steps    int
-	Log      []string // harness observation log
+	preempts    int
+	steps       int
+	pollQuantum time.Duration
+	Log         []string // harness observation log
 }
 
 type Opts struct {
@@ -127,6 +135,7 @@ type Opts struct {
 	AdvanceMax time.Duration // longest stall an ADVANCE alternative may cause
 	DelayBound bool          // every non-default scheduling choice costs 1 (delay bounding), not only preemptions
 	Policy     int           // default order of runnable threads: 0 ascending ids, 1 descending ids
+	PollClock  bool          // when only polling threads (see PollEvery) are runnable, let fake time pass
 }
 
 func (o *Opts) defaults() {
@@ -384,7 +393,20 @@ func Loop() {
 	loopCount++
 	if loopCount > loopLimit {
 		spin()
+	} else if loopCount%PollEvery == 0 {
+		pollYield()
 	}
+}
+
+//go:norace
+func pollYield() {
+	x, t := self()
+	if t == nil || x.killed || x.running != t {
+		return
+	}
+	saved := loopCount
+	park(x, t, OpPoll, nil)
+	loopCount = saved
 }
 
 //go:norace
@@ -683,10 +705,14 @@ func (x *X) loop() {
 		}
 		alive, native := 0, 0
 		nc := 0
-		if l := x.last; l != nil && l.status == stParked && enabled(l) {
+		// a thread parked at a poll yield runs after every other runnable thread
+		lastPoll := x.last != nil && x.last.status == stParked && x.last.opKind == OpPoll
+		if l := x.last; l != nil && l.status == stParked && enabled(l) && !lastPoll {
 			cands[nc] = l
 			nc++
 		}
+		var polls [MaxThreads]*Thread
+		np := 0
 		for ii := 0; ii < x.nthreads; ii++ {
 			i := ii
 			if x.opts.Policy == 1 {
@@ -705,7 +731,25 @@ func (x *X) loop() {
 				return
 			}
 			if t.status == stParked && t != x.last && enabled(t) {
+				if t.opKind == OpPoll {
+					polls[np] = t
+					np++
+					continue
+				}
 				cands[nc] = t
+				nc++
+			}
+		}
+		// fairness: a polling thread is not scheduled while a thread that is not polling can run (it
+		// has yielded; a schedule that keeps choosing it starves the others and proves nothing)
+		onlyPolls := nc == 0
+		if onlyPolls {
+			for i := 0; i < np; i++ {
+				cands[nc] = polls[i]
+				nc++
+			}
+			if lastPoll {
+				cands[nc] = x.last
 				nc++
 			}
 		}
@@ -729,6 +773,22 @@ func (x *X) loop() {
 				x.endMsg = "step cap"
 			}
 			return
+		}
+		if nc > 0 && onlyPolls && native > 0 && x.opts.PollClock {
+			// only polling threads are runnable: time passes while they poll. The clock may move by a
+			// quantum that doubles with every consecutive such wait (1ms .. 1s): a timer that would end
+			// the polling is reached, a computation that merely takes long costs little fake time.
+			if x.pollQuantum == 0 {
+				x.pollQuantum = time.Millisecond
+			} else if x.pollQuantum < time.Second {
+				x.pollQuantum *= 2
+			}
+			if x.waitTime(x.pollQuantum) {
+				continue
+			}
+		}
+		if !onlyPolls {
+			x.pollQuantum = 0
 		}
 		if nc == 0 {
 			h := x.opts.Horizon
